@@ -65,7 +65,9 @@ PROPS["C05"] = {
 PROPS["C01"] = {
     "title": "Optimisation never changes a verdict",
     "models": lambda tier: [
-        {"module": "MC_Opt", "constants": {"Small": q(tier, "TRUE", "FALSE")},
+        {"module": "MC_Opt", "constants": {"Small": q(tier, "TRUE", "FALSE"), "Universe": '"A"'},
+         "invariants": ["NoPanic", "DenStable", "EngInLang", "Emit"], "forms": ["mc_opt"], "workers": 12},
+        {"module": "MC_Opt", "constants": {"Small": q(tier, "TRUE", "FALSE"), "Universe": '"B"'},
          "invariants": ["NoPanic", "DenStable", "EngInLang", "Emit"], "forms": ["mc_opt"], "workers": 12},
     ],
     "gens": lambda tier: [{"topic": "opt", "n": q(tier, 700, 12000)}],
